@@ -231,6 +231,46 @@ Proof.
 Qed.
 
 (* ------------------------------------------------------------------------------------------ *)
+(* the proposed repair of F8 (skip off-path bindings in __build_traffic) restores the property *)
+(* ------------------------------------------------------------------------------------------ *)
+
+Lemma on_path_sel : forall c bf b, on_path (sel_cfg c) (sel_buffer c bf) b = on_path c bf b.
+Proof. intros c bf b. reflexivity. Qed.
+
+Lemma coherent_sel : forall c b, coherent (sel_cfg c) b = coherent c b.
+Proof. intros c b. reflexivity. Qed.
+
+Theorem hyp_sel : forall c, hyp_rest c = true -> hypb (sel_cfg c) = true.
+Proof.
+  intros c H. unfold hyp_rest in H. apply andb_true_iff in H. destruct H as [H1 H2].
+  unfold hypb. apply andb_true_iff. split; [|exact H2].
+  simpl. rewrite forallb_forall. intros bf' Hbf'. apply in_map_iff in Hbf'. destruct Hbf' as [bf [<- Hbf]].
+  rewrite forallb_forall in H1. specialize (H1 bf Hbf). rewrite forallb_forall in H1.
+  rewrite forallb_forall. intros b Hb. unfold active in Hb. apply filter_In in Hb. destruct Hb as [Hb Hbits].
+  simpl in Hb. apply filter_In in Hb. destruct Hb as [Hb Hsel]. rewrite Hbits in Hsel. simpl in Hsel.
+  rewrite on_path_sel, coherent_sel, Hsel. simpl.
+  assert (Ha : In b (active bf)) by (unfold active; apply filter_In; split; assumption).
+  specialize (H1 b Ha). rewrite Hsel in H1. simpl in H1. exact H1.
+Qed.
+
+Theorem repaired_consumed_registered : forall c,
+  hyp_rest c = true ->
+  forall a e b q, dump_events (sel_cfg c) = a ++ e :: b -> In q (needs e) ->
+  exists f, q = NFile f /\ name_produced (sel_cfg c) a f.
+Proof. intros c H. apply model_consumed_registered. apply hyp_sel. exact H. Qed.
+
+(* the repair does not change what is registered *)
+Lemma registered_sel : forall c, registered (sel_cfg c) = registered c.
+Proof.
+  intros c. unfold registered. f_equal. f_equal. simpl.
+  induction (c_buffers c) as [|bf l IH]; simpl; [reflexivity|]. rewrite IH. f_equal.
+  induction (buf_bindings bf) as [|b bs IHb]; simpl; [reflexivity|].
+  destruct (negb (b_bits b) || on_path c bf b) eqn:E; simpl.
+  - rewrite on_path_sel, IHb. reflexivity.
+  - rewrite IHb. apply orb_false_iff in E. destruct E as [_ E]. rewrite E. reflexivity.
+Qed.
+
+(* ------------------------------------------------------------------------------------------ *)
 (* Examples                                                                                    *)
 (* ------------------------------------------------------------------------------------------ *)
 
@@ -278,3 +318,6 @@ Proof.
   split; [vm_compute; reflexivity|]. split; [simpl; auto|].
   intros [[r [lab [Hin _]]]|[i [fl []]]]. vm_compute in Hin. exact Hin.
 Qed.
+
+Example f8_repaired : hyp_rest f8_cfg = true /\ dump_events (sel_cfg f8_cfg) = [Traffic []].
+Proof. split; vm_compute; reflexivity. Qed.
